@@ -428,7 +428,13 @@ def apply_delta(key, delta, data):
     # Assimilate new data
     if getattr(delta, 'added', False):
         if key != WORKFLOW:
-            data[key].update({e.id: e for e in delta.added})
+            # NOTE: store copies - the updates below are merged into the
+            # stored elements and must not alter the delta itself, which is
+            # published to clients after it has been applied here.
+            data[key].update({
+                e.id: reset_protobuf_object(MESSAGE_MAP[key], e)
+                for e in delta.added
+            })
         elif delta.added.ListFields():
             data[key].CopyFrom(delta.added)
 
